@@ -48,6 +48,8 @@ class Recorder(object):
             rec_list, clock = self.records, self.clock
 
             def wrapped(node, cb, *args, **kwargs):
+                if getattr(getattr(node, "_storage_broker", None), "vf_tag", "C") != "C":
+                    return orig(node, cb, *args, **kwargs)      # a node of the competing client: not recorded
                 r = dict(si=node.get_storage_index(), node=id(node), name=getattr(cb, "__name__", "?"),
                          req=clock(), start=None, end=None)
                 rec_list.append(r)
@@ -154,6 +156,9 @@ def run_case(ck, cfg, mode, chooser=None, sched_seed=0, stats=None):
         c = g.make_client(k=k, happy=1, n=n, mutable_format=fmt)
         M.tag_client(g, c, "C", monbox)
         initial = b"base"
+        if cfg.get("big"):
+            # big enough that a read has to fetch blocks from the servers (beyond what a map update's first read caches)
+            initial = b"base" + bytes(range(256)) * 117 + b"end"
         existing = ["old-%d" % i for i in range(4)]
         lit = _uri.LiteralFileURI(b"child").to_string()
         if target == "file":
@@ -291,10 +296,14 @@ def run_case(ck, cfg, mode, chooser=None, sched_seed=0, stats=None):
             for (sidx, meth, nth) in cfg.get("faults", ()):
                 g.servers[sidx % nservers].add_fault("raise", method=meth, nth=nth)
             EXC = {"ConnectionRefusedError": ConnectionRefusedError, "TimeoutError": TimeoutError, "OSError": OSError}
-            for (sidx, meth, nth, excname) in cfg.get("cfaults", ()):
+            for cf in cfg.get("cfaults", ()):
                 # the request fails on the client side with a bare exception (what the HTTP storage client raises
                 # when a server is gone), not with a foolscap RemoteException / DeadReferenceError
-                M.client_fault(g, g.servers[sidx % nservers].name, EXC[excname], method=meth, nth=nth, tag="C")
+                (sidx, meth, nth, excname) = cf[:4]
+                pred = None
+                if len(cf) > 4 and cf[4] == "block-fetch":
+                    pred = lambda args: len(args) > 1 and bool(args[1])     # reads of named shares: Retrieve, not the survey
+                M.client_fault(g, g.servers[sidx % nservers].name, EXC[excname], method=meth, nth=nth, tag="C", pred=pred)
             done_order = []
             held = cfg.get("how", "held") == "held"
             weak = []
@@ -367,6 +376,12 @@ def run_case(ck, cfg, mode, chooser=None, sched_seed=0, stats=None):
                 if not held:
                     del n1, n2
                     n1 = n2 = None
+                collide_key = None
+                if cfg.get("collide"):
+                    # the writes of the burst's first publish are held back until another client has changed the
+                    # file: the first attempt of op 0 (a modify / directory edit) ends in UncoordinatedWriteError
+                    # and it has to back off and retry, with the other operations queued behind it
+                    collide_key = M.hold(g, "C", None, M.WRITE)
                 for op in ops:
                     before = mon.nsent
                     # (an add_file joins the node's queue only when its upload is done: not counted as "pending")
@@ -413,6 +428,26 @@ def run_case(ck, cfg, mode, chooser=None, sched_seed=0, stats=None):
                         ck.violation("two-live-node-objects-for-one-mutable-cap",
                                      "%d distinct live node objects served the lookups of one cap while operations were "
                                      "in flight" % len(live), dict(cfg=desc))
+                if collide_key is not None:
+                    g.sched.run(until=lambda: M.held(g, collide_key) >= 1 or all(op["box"] for op in ops),
+                                max_steps=300000, horizon=3600.0)
+                    if M.held(g, collide_key) >= 1:
+                        cx = g.make_client(k=k, happy=1, n=n, mutable_format=fmt)
+                        M.tag_client(g, cx, "X", [None])
+                        xn = cx.create_node_from_uri(cap)
+                        if target == "file":
+                            dx = xn.modify(lambda old, sm, first: old if b"X" in old.split(b"|") else old + b"|X")
+                        else:
+                            dx = xn.set_node("competitor", cx.create_node_from_uri(lit))
+                        xbox = []
+                        dx.addBoth(xbox.append)
+                        g.sched.run(until=lambda: bool(xbox), max_steps=300000, horizon=3600.0)
+                        if xbox and not is_failure(xbox[0]):
+                            out["competitor"] = True
+                            ck.hit("first-attempt-collides-with-another-writer")
+                        else:
+                            ck.observe("competitor-write-failed")
+                    M.release(g, collide_key)
                 st = g.sched.run(until=lambda: all(op["box"] for op in ops), max_steps=300000, horizon=6 * 3600.0)
             except M.Prune as e:
                 out["pruned"] = str(e)
@@ -439,6 +474,8 @@ def evaluate(ck, cfg, g, c, cap, mon, recorder, setup_records, ops, done_order, 
     faults = bool(cfg.get("faults") or cfg.get("cfaults"))
     if any(f["fired"] for f in getattr(g, "vf_client_faults", ())):
         ck.hit("request-failed-with-bare-exception")
+    if any(f["fired"] and f.get("pred") for f in getattr(g, "vf_client_faults", ())):
+        ck.hit("block-fetch-failed-with-bare-exception")
     outcomes = []
     for op in ops:
         if not op["box"]:
@@ -543,6 +580,9 @@ def evaluate(ck, cfg, g, c, cap, mon, recorder, setup_records, ops, done_order, 
         return
     if target == "file":
         content, seq, publishes = initial, out.get("seq0", 1), 0
+        if out.get("competitor"):
+            # the other client's write landed before the first publish of this burst could
+            content, seq, publishes = content + b"|X", seq + 1, 1
         for op, oc in zip(ops, outcomes):
             kind, res = op["kind"], op["box"][0]
             exp_ok, exp_val = True, None
@@ -578,6 +618,9 @@ def evaluate(ck, cfg, g, c, cap, mon, recorder, setup_records, ops, done_order, 
         names = set(existing)      # what a read at this position must show
         optional = set()           # what it may show in addition (edits that join the queue late)
         final = set(existing)      # what is there when everything completed
+        if out.get("competitor"):
+            names.add("competitor")
+            final.add("competitor")
         for op, oc in zip(ops, outcomes):
             kind, res = op["kind"], op["box"][0]
             exp_ok, exp_val = True, None
@@ -751,6 +794,23 @@ def random_cfg(rng):
         cfg["damage"] = True
         lead = "download" if target == "file" else "list"
         cfg["ops"] = ops = (lead,) + tuple(o for o in ops[1:])
+    elif rng.random() < .18:
+        # the first operation of the burst is a modify / directory edit whose first attempt collides with another client
+        first = "modify" if target == "file" else rng.choice(["set_node", "set_uri", "delete", "rename"])
+        cfg["ops"] = ops = (first,) + tuple(ops[1:])
+        cfg["collide"], cfg["how"] = True, "held"
+        cfg["k"] = k = rng.choice([1, 1, 2])
+        cfg["nservers"] = nservers = rng.choice([1, 2, 3, 4])
+        cfg["n"] = rng.randint(k, 5)
+    elif target == "file" and rng.random() < .2:
+        # a block fetch of a read (not a map-update query) fails with a bare exception; the file is big enough that
+        # reads really fetch blocks from the servers
+        cfg["big"] = True
+        cfg["cfaults"] = tuple((rng.randrange(nservers), "slot_readv", rng.randint(1, 3),
+                                rng.choice(["ConnectionRefusedError", "TimeoutError", "OSError"]), "block-fetch")
+                               for _ in range(rng.randint(1, nservers)))
+        lead = rng.choice(["download", "modify", "download"])
+        cfg["ops"] = ops = (lead,) + tuple(ops[1:])
     elif target == "file" and rng.random() < .25 or (target == "dir" and rng.random() < .15):
         # a share number on two servers, one of them slow to answer writes; the burst starts with a writing operation
         cfg["k"], cfg["n"], cfg["nservers"] = rng.choice([(1, 3, 3), (1, 4, 3), (2, 4, 4), (1, 2, 2), (2, 6, 3)])
@@ -897,7 +957,8 @@ def _run(ck):
     ck.require_reach("op-failed", "op-succeeded", "operation-judged-after-failed-one", "concurrent-directory-additions",
                      "case-with-server-faults", "download-needed-the-mode-write-fallback",
                      "node-obtained-by-two-routes", "rename-races-other-directory-edits",
-                     "share-number-on-two-servers", "request-failed-with-bare-exception")
+                     "share-number-on-two-servers", "request-failed-with-bare-exception",
+                     "first-attempt-collides-with-another-writer", "block-fetch-failed-with-bare-exception")
     ck.assumptions.append("DFS and ev_first cases run client-local steps before message deliveries; the other random "
                           "cases interleave them freely")
     ck.assumptions.append("exhaustive=true refers only to the DFS configurations counted in dfs_configs_exhausted")
